@@ -126,6 +126,9 @@ class FakeSocket(object):
         self.wb_budget = wb_budget
         self.timeout = None
         self.dead = None      # once a transport fault fired: its kind
+        self.stall_after = None  # int: sends would-block once that many
+        #                          bytes were written (until reset to None)
+        self.close_fault = None  # 'reset': close() raises after closing
         self.peer_gone = None  # 'epipe'|'reset'|'timeout': sends fail, the
         #                        receive buffer stays readable (peer closed
         #                        after writing / transport stalled)
@@ -182,6 +185,16 @@ class FakeSocket(object):
             self.calllog.append(("send", 0, 0))
             return 0
         take = n
+        if self.stall_after is not None:
+            room = self.stall_after - len(self.out.sent_log)
+            if room <= 0:
+                self._count("wouldblock_stall")
+                self.calllog.append(("send", n, "wb"))
+                raise _oserr(errno.EWOULDBLOCK)
+            take = min(n, room)
+            self.out.write(data[:take])
+            self.calllog.append(("send", n, take))
+            return take
         if self.policy == "byte":
             take = 1
         elif self.policy == "random":
@@ -266,6 +279,11 @@ class FakeSocket(object):
             self.closed = True
             self.out.eof = True
             self._tell_peer()
+            if self.close_fault:
+                # (socket.close() may report an error of the connection)
+                self.fired.append(("close", 0, self.close_fault))
+                self._count("fault_close_" + self.close_fault)
+                raise _oserr(errno.ECONNRESET)
 
     def abort(self):
         """Crash: socket vanishes; peer sees reset after draining."""
